@@ -312,7 +312,7 @@ pub fn exec<F: Flavour>(nodes: &[F::Node], root: Key, cell: &Cell, meth: &MethSp
 /// One search / ordering object asked twice; the last edge of `g` is connected
 /// between the two calls. Returns the two observations (first judged against
 /// g without its last edge, second against g).
-pub fn exec_reuse<F: Flavour>(g: &GCase, root: Key, cell: &Cell) -> Option<(GCase, SOut, SOut)> {
+pub fn exec_reuse<F: Flavour>(g: &GCase, root: Key, cell: &Cell) -> Option<(GCase, Vec<SOut>)> {
     if g.edges.is_empty() {
         return None;
     }
@@ -321,46 +321,55 @@ pub fn exec_reuse<F: Flavour>(g: &GCase, root: Key, cell: &Cell) -> Option<(GCas
     }
     let mut g0 = g.clone();
     let last = g0.edges.pop().unwrap();
+    // when no other edge joins the same pair, the edge is also taken away again and put back:
+    // four calls on graphs g0, g, g0, g (a node reached in one call, not in the next, and again in the one after)
+    let unique = !g0.edges.iter().any(|e| (e.0, e.1) == (last.0, last.1) || (!F::DIRECTED && (e.1, e.0) == (last.0, last.1)));
+    let calls = if unique { 4 } else { 2 };
     let nodes = build::<F>(&g0);
     let mk = || SOut { handles_ok: true, found_same_alloc: true, ..Default::default() };
-    let (mut a, mut b) = (mk(), mk());
     let r = catch_unwind(AssertUnwindSafe(|| {
-        let mut between = || F::connect(&nodes[last.0 as usize], &nodes[last.1 as usize], last.2);
+        let mut step = 0usize;
+        let mut between = || {
+            if step % 2 == 0 {
+                F::connect(&nodes[last.0 as usize], &nodes[last.1 as usize], last.2);
+            } else {
+                let _ = F::disconnect(&nodes[last.0 as usize], last.1);
+            }
+            step += 1;
+        };
         let rootn = &nodes[root as usize];
-        let (mut a, mut b) = (mk(), mk());
+        let mut outs: Vec<SOut> = vec![];
         match cell {
             Cell::Search(cfg) => {
-                let (p1, p2) = F::search_path_twice(rootn, cfg, &mut between);
-                if let Some(p) = p1 {
-                    path_data::<F>(&nodes, &p, &mut a);
-                }
-                if let Some(p) = p2 {
-                    path_data::<F>(&nodes, &p, &mut b);
+                for p in F::search_path_twice(rootn, cfg, calls, &mut between) {
+                    let mut o = mk();
+                    if let Some(p) = p {
+                        path_data::<F>(&nodes, &p, &mut o);
+                    }
+                    outs.push(o);
                 }
             }
             Cell::Order(cfg) => {
-                let (o1, o2) = F::order_twice(rootn, cfg, &mut between);
-                for (o, out) in [(o1, &mut a), (o2, &mut b)] {
+                for o in F::order_twice(rootn, cfg, calls, &mut between) {
+                    let mut out = mk();
                     match o {
                         OrderRes::Nodes(v) => out.nodes = Some(v.iter().map(|n| F::key(n)).collect()),
                         OrderRes::Edges(v) => out.edges = Some(v.iter().map(|e| F::tri(e)).collect()),
                     }
+                    outs.push(out);
                 }
             }
         }
-        (a, b)
+        outs
     }));
     match r {
-        Ok((x, y)) => {
-            a = x;
-            b = y;
-        }
+        Ok(outs) => Some((g0, outs)),
         Err(e) => {
+            let mut a = mk();
             a.panic = Some(panic_msg(e));
-            b.panic = a.panic.clone();
+            Some((g0, vec![a.clone(), a]))
         }
     }
-    Some((g0, a, b))
 }
 
 /// search_path() first, then `cell`'s own terminal on the same search object (closure-free)
